@@ -441,11 +441,12 @@ fn check_path(b: &Bounds, events: &[Ev], result_opt: Option<&Result<ParseResult<
     let mut shadow_valid = true;                   // false between a recovery and the next full view of the real stack
     let mut after_recovery = false;                // a recovery has pushed its error state and the lookahead has not been shifted yet
     let mut in_accepts = false;                    // inside error_recovery (after the error was built): table queries there are simulations
+    let mut last_next: Option<Option<usize>> = None; // the current lookahead: Some(Some(i)) token #i pulled last, Some(None) the stream has ended
     for (ix, ev) in events.iter().enumerate() {
         match ev {
-            Ev::Next(Some(Ok(i))) => pulled.push(*i),
+            Ev::Next(Some(Ok(i))) => { pulled.push(*i); last_next = Some(Some(*i)); }
             Ev::Next(Some(Err(n))) => { iter_end = Some(ix); injected_err = Some((ix, UErr::Iter(*n))); }
-            Ev::Next(None) => { iter_end = Some(ix); }
+            Ev::Next(None) => { iter_end = Some(ix); last_next = Some(None); }
             Ev::NextAfterEnd => v.push(("C17", "the token stream was polled again after it had ended / failed".into())),
             Ev::TokenToIndex(_, false) => { detect_stack = if shadow_valid { Some(shadow.clone()) } else { Some(vec![]) }; in_error_path = true; }
             Ev::Query { origin: Origin::Tok, state } | Ev::Query { origin: Origin::Eof, state } => {
@@ -499,7 +500,16 @@ fn check_path(b: &Bounds, events: &[Ev], result_opt: Option<&Result<ParseResult<
                 shadow_valid = true;
                 if *outcome == "fail" { injected_err = Some((ix, UErr::Action(0))); }
                 if *outcome == "reduce" { let n = shadow.len(); shadow.truncate(n - pop); shadow.push(St(u32::MAX)); }
-                let _ = la;
+                // the location handed to reduce() is the start of the current lookahead token (None at end of input): the generated
+                // __reduce places empty productions there (C06); inside error_recovery the error node's span is derived from it (C16)
+                if let Some(ln) = last_next {
+                    let want = ln.map(Loc::TokL);
+                    if *la != want {
+                        let msg = format!("reduce() was handed the location {:?}, but the lookahead is {} (want {:?})", la, match ln { Some(i) => format!("token #{}", i), None => "the end of input".to_string() }, want);
+                        v.push(("C06", msg.clone()));
+                        if in_accepts { v.push(("C16", format!("during error recovery: {}", msg))); }
+                    }
+                }
             }
             Ev::Goto(_, _) => {}
             Ev::Expected { n, states } => {
